@@ -231,7 +231,6 @@ FAMILIES = {
     "inplace-not": {"inplaceNot"},
     "temp-uncomputed-early": {"markNamedTemp"},
     "uncompute-stale": {"staleReplay"},
-    "ret-aliases-input": {"retAliasesInput"},
 }
 
 
